@@ -8,7 +8,6 @@ class Pool:
     """
 
     """
-    _POOL_TRACKER = 0
     _CURRENT = []
     # TODO: Attach to report instead!
 
@@ -18,8 +17,10 @@ class Pool:
         self.seed = seed
         self.report = report
         if position is None:
-            position = Pool._POOL_TRACKER
-            Pool._POOL_TRACKER += 1
+            # Pools are counted per report, so that clearing the report
+            # starts the next script's pools at position 0 again
+            position = report['questions'].get('pools', 0)
+            report['questions']['pools'] = position + 1
         self.position = position
 
     def __enter__(self):
